@@ -27,10 +27,16 @@ def _lengths(w: int) -> tuple[int, ...]:
 class Credit:
     """Server policy deciding when WINDOW_UPDATE frames are sent."""
 
-    def __init__(self, mode: str) -> None:
+    def __init__(self, mode: str, early: bool = False) -> None:
         self.mode = mode
+        self.early = early  # answer with the response head before the upload has finished (legal)
         self.pending: list[tuple[int | None, int]] = []  # (stream or None for connection, increment)
         self.srv: H2Server | None = None
+
+    def on_headers(self, srv: H2Server, sid: int) -> None:
+        if self.early and srv.path(sid) != b"/warm":
+            srv.streams[sid]["early"] = True
+            srv.conn.send_headers(sid, [(b":status", b"200"), (b"x-token", srv.path(sid))])
 
     def on_data(self, srv: H2Server, ev: typing.Any) -> None:
         self.srv = srv
@@ -94,15 +100,15 @@ def _mk_body(n: int, split: bool, is_async: bool) -> typing.Any:
     "C13", "upload",
     quick=[{"flavour": "async", "_pre": f"w == {w}"} for w in range(3)] + [{"flavour": "sync", "_pre": "pol <= 1"}],
     thorough=[{"flavour": "async", "_pre": f"w == {w} and pol == {p}"} for w in range(3) for p in range(5)] + [{"flavour": "sync", "_pre": "pol <= 1"}],
-    example=dict(w=1, f=0, ln=5, pol=4, split=True),
+    example=dict(w=1, f=0, ln=5, pol=4, split=True, early=False),
     require=("blocked-on-window", "complete"),
     timeout={"quick": 300, "thorough": 900},
-    symbolic="server INITIAL_WINDOW_SIZE w in {1,5,65535}; MAX_FRAME_SIZE in {16384, 2^24-1}; body length in {0,1,w-1,w,w+1,2w+3}; WINDOW_UPDATE schedule in {immediate, tiny increments, stream-first, connection-first, late}; body as bytes or a 3-chunk iterator",
+    symbolic="server INITIAL_WINDOW_SIZE w in {1,5,65535}; MAX_FRAME_SIZE in {16384, 2^24-1}; body length in {0,1,w-1,w,w+1,2w+3}; WINDOW_UPDATE schedule in {immediate, tiny increments, stream-first, connection-first, late}; body as bytes or a 3-chunk iterator; whether the server sends its response head before the upload has finished",
     bounds="one upload per run (131,073 bytes at most, which also exhausts the 65,535-byte connection window); late credit is granted one WINDOW_UPDATE at a time whenever the client is blocked",
     outside="window sizes other than {1,5,65535}; SETTINGS changes of the window mid-upload",
     stubs=("strict h2 library in server role (raises FlowControlError / FrameTooLargeError on violations)",),
 )
-def upload(w: int, f: int, ln: int, pol: int, split: bool) -> None:
+def upload(w: int, f: int, ln: int, pol: int, split: bool, early: bool) -> None:
     """
     pre: 0 <= w <= 2 and 0 <= f <= 1 and 0 <= ln <= 5 and 0 <= pol <= 4
     post: _
@@ -111,15 +117,15 @@ def upload(w: int, f: int, ln: int, pol: int, split: bool) -> None:
     win, frame = pick(w, WINDOWS), pick(f, FRAMES)
     n = _lengths(win)[ladder(ln, 0, 5)]
     mode = pick(pol, POLICIES)
-    sp = bool(split)
+    sp, ea = bool(split), bool(early)
     if not is_async and mode not in ("immediate", "tiny"):
         return  # the sync flavour has no second party to grant late credit
-    with concrete(win, frame, n, mode, sp):
-        _upload(is_async, win, frame, n, mode, sp)
+    with concrete(win, frame, n, mode, sp, ea):
+        _upload(is_async, win, frame, n, mode, sp, ea)
 
 
-def _upload(is_async: bool, win: int, frame: int, n: int, mode: str, split: bool) -> None:
-    credit = Credit(mode)
+def _upload(is_async: bool, win: int, frame: int, n: int, mode: str, split: bool, early: bool) -> None:
+    credit = Credit(mode, early)
     su = Setup("h2prior", is_async, max_connections=1, h2_policy=credit,
                h2_settings={h2.settings.SettingCodes.INITIAL_WINDOW_SIZE: win, h2.settings.SettingCodes.MAX_FRAME_SIZE: frame})
     # warm-up first: the client has then processed the server's SETTINGS (an
@@ -131,8 +137,8 @@ def _upload(is_async: bool, win: int, frame: int, n: int, mode: str, split: bool
     body, data = _mk_body(n, split, is_async)
     o = su.api.request(su.pool, "POST", su.url("up"), content=body,
                        extensions={"timeout": {"pool": 0, "read": 50, "write": 50, "connect": 50}})
-    P.note(window=win, frame=frame, length=n, policy=mode, split=split, outcome=o.kind())
-    sig = f"flow:up:w{win}:{mode}"
+    P.note(window=win, frame=frame, length=n, policy=mode, split=split, early=early, outcome=o.kind())
+    sig = f"flow:up:w{win}:{mode}" + (":early-response" if early else "")
     if n > win or n > 65535:
         P.cover("blocked-on-window")
     P.check(not isinstance(o.exc, vrt.Hang), "upload-resumes-when-the-window-reopens", lambda: f"{sig}:stalled:n={n}")
